@@ -26,6 +26,7 @@ def main():
         cmd += ['-n', jobs]
     env = dict(os.environ)
     env.pop('JEDI_VERIF', None)
+    env.setdefault('PYENV_VERSION', '3.11.7:3.13.0')    # this shell's pyenv global lacks 3.13 (test_versions[3.13] of the pinned list needs it)
     p = subprocess.run(cmd, cwd=root, env=env, stdout=subprocess.PIPE, stderr=subprocess.STDOUT, text=True)
     passed = set()
     try:
